@@ -86,3 +86,19 @@ def run_recorded(case):
         if (c["kind"], c["type"], c["value_index"]) == (case["kind"], case["type"], case["value_index"]):
             return c["failure"]
     return None
+
+
+def private_field_witness():
+    """Known finding C13-private-dataclass-field: only *public* fields of a structured object are read (C18's documented
+    contract), so a valid instance whose private field differs from its default does not pass through unchanged."""
+    import dataclasses
+    import typelib
+
+    @dataclasses.dataclass
+    class P:
+        a: int
+        _b: int = 0
+    with warnings.catch_warnings():
+        warnings.simplefilter("ignore")
+        r = typelib.unmarshal(P, P(1, 5))
+    return None if r == P(1, 5) else f"unmarshal(P, P(a=1, _b=5)) == {r!r} for @dataclass P(a: int, _b: int = 0)"
